@@ -43,6 +43,7 @@ Init0 == [ nxt    |-> 1,        \* next harness slot for a send future
            inuse  |-> {},       \* inflight_ids
            nextId |-> 0,        \* inflight_idx
            owedP  |-> << >>,    \* acknowledgements the peer still owes: Seq of [id, a]
+           emp    |-> 0,        \* empty pieces accepted so far (history that the real endpoint may - wrongly - remember)
            dead   |-> FALSE,    \* force_close() happened
            ev     |-> << >> ]
 
@@ -125,7 +126,7 @@ Chunk(st, n) ==
                  Emit([s0 EXCEPT !.sr = 0, !.curDone = TRUE,
                                  !.owedP = IF st.srQ > 0 THEN Append(@, [id |-> st.srId, a |-> "PUBACK"]) ELSE @],
                       << Poll("ready", t), Done("ok", t, 0), OutPub(st.srId, st.srQ, st.srLen) >>)
-          ELSE Emit([s0 EXCEPT !.sr = @ - n], << Poll("ready", t), Done("ok", t, 0) >>)
+          ELSE Emit([s0 EXCEPT !.sr = @ - n, !.emp = IF n = 0 THEN @ + 1 ELSE @], << Poll("ready", t), Done("ok", t, 0) >>)
 
 \* the application drops the stream handle: bytes still owed -> the connection is aborted
 StreamDrop(st) ==
